@@ -614,9 +614,6 @@ func markdownCodeBlockEscape(w strWriter, s string, spaces bool) error {
 	last := 0
 	for i := 0; i < len(s); i++ {
 		if s[i] == '\n' {
-			if i+1 < len(s) && s[i+1] == '\r' {
-				i++
-			}
 			_, err := w.WriteString(s[last : i+1])
 			if err != nil {
 				return err
